@@ -542,6 +542,10 @@ def huge_cells(tier):
         cells += [(8_000_000, 1, 0.0), (4_200_000, 2, -3.0)]
     for i, (n, p, level) in enumerate(cells):
         yield {"n": n, "p": p, "level": level, "seed": 6000 + i}
+    # the other axis: several hundred channels (beyond 2^8 / 2^9 / 2^10 columns) on a short series, with a shift in the LAST 40
+    # channels only (an implementation that processes columns in blocks and mishandles the last block scores them wrongly)
+    for j, (n, p) in enumerate([(60, 300), (48, 257), (40, 520)] + ([(30, 1030), (64, 256), (50, 513)] if tier != "quick" else [])):
+        yield {"n": n, "p": p, "level": 0.5, "seed": 6100 + j, "wide": True}
 
 
 def check_huge(case):
@@ -553,10 +557,13 @@ def check_huge(case):
     rng = np.random.Generator(np.random.PCG64(case["seed"]))
     X = rng.standard_normal((n, p)) + case["level"] * (1 + np.arange(p))  # every column on its own level
     X[n // 2:] += 0.01
+    if case.get("wide"):
+        X[n // 2:, -40:] += 3.0
     # cuts: the whole series and other multi-million intervals, split in the middle, near the ends and at random places
     cuts3 = [[0, n // 2, n], [0, 10, n], [0, n - 10, n], [7, n // 3, n - 5], [n // 10, n // 2 + 1234, n - n // 10],
              [0, min(1_700_000, n // 2), min(3_399_000, n - 1000)], [1000, 2000, 3000]]
     cuts3 += [sorted(int(v) for v in rng.choice(n + 1, size=3, replace=False)) for _ in range(8)]
+    cuts3 = [c for c in cuts3 if 0 <= c[0] < c[1] < c[2] <= n]
     cuts3 = np.asarray(cuts3, dtype=np.int64)
     S1 = np.concatenate((np.zeros((1, p), dtype=np.longdouble), np.cumsum(X.astype(np.longdouble), axis=0)))
     S2 = np.concatenate((np.zeros((1, p), dtype=np.longdouble), np.cumsum(X.astype(np.longdouble) ** 2, axis=0)))
@@ -583,13 +590,13 @@ def check_huge(case):
                             ("Saving(L2Cost(0))", sav2, d_sav)):
         if got.shape != want.shape or not np.all(np.isfinite(got)) or np.any(np.abs(got - want) > tol):
             i = int(np.argmax(~np.isfinite(got).all(axis=1) | (np.abs(got - want).max(axis=1) > tol))) if got.shape == want.shape else 0
-            raise Violation(f"{name} differs from its definition on a very long series", n=n, cut=cuts3[i].tolist(),
+            raise Violation(f"{name} differs from its definition on a very long (or very wide) series", n=n, cut=cuts3[i].tolist(),
                             got=np.asarray(got[i]).tolist(), definition=np.asarray(want[i]).tolist(), tolerance=tol)
     d_loc = np.array([rss(s, e) - rss(a, b) - ((S2[a] - S2[s] + S2[e] - S2[b]) - (S1[a] - S1[s] + S1[e] - S1[b]) ** 2 / ((a - s) + (e - b)))
                       for s, a, b, e in cuts4], dtype=float)
     if not np.all(np.isfinite(loc)) or np.any(np.abs(loc - d_loc) > tol):
-        raise Violation("LocalAnomalyScore(L2Cost) differs from its definition on a very long series", n=n, tolerance=tol)
-    return {"nontrivial": True, "classes": [f"n>={n // 1_000_000}e6", f"p={p}"]}
+        raise Violation("LocalAnomalyScore(L2Cost) differs from its definition on a very long (or very wide) series", n=n, tolerance=tol)
+    return {"nontrivial": True, "classes": [f"n>={n // 1_000_000}e6", f"p={p}"] + (["wide"] if case.get("wide") else [])}
 
 
 def wide_fixed_cells(tier):
@@ -669,6 +676,7 @@ FACETS = [
     Facet(name="huge_series", kind="enumerate", enumerate=huge_cells, check=check_huge, exhaustive=True, time_limit=600,
           rule=("series of 3.4 and 5 million samples (thorough: up to 8 million, p up to 2; seeded noise around levels 0 / 100 with one small "
                 "shift): CUSUM^2, ChangeScore(L2Cost), L2Saving, Saving(L2Cost(0)) and LocalAnomalyScore(L2Cost) on multi-million-sample "
-                "intervals (products of the three lengths beyond the int64 range) against long-double definitional values; every cell non-trivial"),
-          shards_quick=2, shards_thorough=4, max_samples=1),
+                "intervals (products of the three lengths beyond the int64 range) against long-double definitional values; and the other axis: 257 / 300 / 520 "
+                "channels (thorough: up to 1030) on 30-64 samples with a shift in the last 40 channels only; every cell non-trivial"),
+          shards_quick=3, shards_thorough=6, max_samples=1),
 ]
